@@ -1187,6 +1187,164 @@ fn partly_used_packs(h: &RepoHandle) -> Option<usize> {
     Some(packs.iter().filter(|p| p.blobs.iter().any(|b| used.contains(b.id.to_hex().as_str())) && p.blobs.iter().any(|b| !used.contains(b.id.to_hex().as_str()))).count())
 }
 
+/// number of indexed packs that hold content of files of stored snapshots ONLY as INNER chunks (neither the first nor the
+/// last chunk of any file of any stored snapshot, and no reachable tree): packs nothing but a walk over the WHOLE content
+/// list of a file leads to
+fn inner_only_packs(h: &RepoHandle) -> Option<usize> {
+    let store = h.be.store();
+    let packs: Vec<IndexPack> = files_of(&store, FileType::Index)
+        .iter()
+        .filter_map(|(_, b)| decode_file(&h.key, b).and_then(|p| serde_json::from_slice::<IndexFile>(&p).ok()))
+        .flat_map(|f| f.packs)
+        .collect();
+    let loc: BTreeMap<String, (Id, u32, u32, bool)> = packs
+        .iter()
+        .flat_map(|p| p.blobs.iter().map(|b| (b.id.to_hex().to_string(), (*p.id, b.location.offset, b.location.length, b.location.uncompressed_length.is_some()))))
+        .collect();
+    let read = |id: &str| -> Option<Vec<u8>> {
+        let (pack, off, len, c) = loc.get(id)?;
+        let data = store.get(&(ft_idx(FileType::Pack), *pack))?;
+        let raw = hk::decrypt(&h.key, data.get(*off as usize..(*off + *len) as usize)?)?;
+        if *c { hk::zstd_decode(&raw) } else { Some(raw) }
+    };
+    let (mut outer, mut inner): (BTreeSet<String>, BTreeSet<String>) = (BTreeSet::new(), BTreeSet::new());
+    let mut seen: BTreeSet<String> = BTreeSet::new();
+    let mut queue: Vec<String> = files_of(&store, FileType::Snapshot)
+        .iter()
+        .filter_map(|(_, b)| decode_file(&h.key, b).and_then(|p| serde_json::from_slice::<SnapshotFile>(&p).ok()))
+        .map(|s| s.tree.to_hex().to_string())
+        .collect();
+    while let Some(t) = queue.pop() {
+        if !seen.insert(t.clone()) {
+            continue;
+        }
+        _ = outer.insert(t.clone());
+        let tree: Tree = serde_json::from_slice(&read(&t)?).ok()?;
+        for n in &tree.nodes {
+            if let Some(st) = n.subtree {
+                queue.push(st.to_hex().to_string());
+            }
+            let c: Vec<String> = n.content.iter().flatten().map(|c| c.to_hex().to_string()).collect();
+            for (i, id) in c.iter().enumerate() {
+                _ = if i == 0 || i + 1 == c.len() { outer.insert(id.clone()) } else { inner.insert(id.clone()) };
+            }
+        }
+    }
+    let pack_of = |id: &String| loc.get(id).map(|l| l.0);
+    let outer_packs: BTreeSet<Id> = outer.iter().filter_map(pack_of).collect();
+    let inner_packs: BTreeSet<Id> = inner.iter().filter_map(pack_of).collect();
+    Some(inner_packs.difference(&outer_packs).count())
+}
+
+/// A file of 4–9 chunks (fixed-size chunker) that is CHANGED AT BOTH ENDS between two backups — its first and its last chunk are
+/// new, the inner chunks are de-duplicated against the packs of the first backup — after which the first snapshot is forgotten
+/// and nobody prunes: the packs of the first backup are needed by the remaining snapshot through INNER chunks of the file only
+/// (its first and last chunk and all trees live in the packs of the second backup).  Either the file is the only one of the
+/// source (default pack size: one data pack per backup), or small files stand next to it and the data packs are tiny (about
+/// one chunk per pack), so that the small files share no pack with the inner chunks; optionally a third version that changes
+/// an inner chunk as well is backed up (inner chunks spread over the packs of two earlier backups).
+pub fn build_inner_chunks(rng: &mut Rng, stats: &mut Stats) -> Option<Built> {
+    let mut cfg = ConfigOptions::default();
+    let v2 = rng.chance(2, 3);
+    stats.hit(if v2 { "cfg.v2" } else { "cfg.v1" });
+    if v2 {
+        cfg.set_compression = Some(*rng.pick(&[0i32, 3, -3]));
+    }
+    let chunk = *rng.pick(&[512usize, 1024]);
+    cfg.set_chunker = Some(rustic_core::repofile::Chunker::FixedSize);
+    cfg.set_chunk_size = Some(bytesize::ByteSize(chunk as u64));
+    let alone = rng.chance(1, 2);
+    if !alone {
+        cfg.set_datapack_size = Some(bytesize::ByteSize(*rng.pick(&[1u64, chunk as u64])));
+        cfg.set_treepack_size = Some(bytesize::ByteSize(*rng.pick(&[1u64, 4000])));
+        stats.hit("cfg.tiny-packs");
+    }
+    let h = init_repo(&cfg, !v2)?;
+    let n_chunks = 4 + rng.below(6) as usize;
+    // the last chunk may be a short one
+    let len = n_chunks * chunk - *rng.pick(&[0usize, 1, 100]);
+    let mut big = rng.bytes(len);
+    let mut small = vec![];
+    if !alone {
+        for j in 0..1 + rng.below(3) {
+            let l = *rng.pick(&[40usize, 700]);
+            small.push(SrcEntry::file(&[if j % 2 == 0 { b"a" } else { b"z" }, format!("s{j}").as_bytes()], &rng.bytes(l)));
+        }
+    }
+    let versions = 2 + rng.below(2) as usize;
+    let mut ids = vec![];
+    for k in 0..versions {
+        if k > 0 {
+            // written in place at its very beginning and its very end (k = 2: and somewhere in the middle)
+            big[0] ^= 0x55;
+            let l = big.len();
+            big[l - 1] ^= 0x55;
+            if k == 2 {
+                big[(1 + rng.below(n_chunks as u64 - 2) as usize) * chunk + 7] ^= 0x55;
+            }
+        }
+        let mut e = SrcEntry::file(&[b"m", b"big"], &big);
+        e.mtime_s += k as i64;
+        e.ctime_s = e.mtime_s;
+        let mut es = small.clone();
+        es.push(e);
+        let repo = open_nc(&h).ok()?.to_indexed_ids().ok()?;
+        ids.push(repo.archive(&BackupOptions::default(), &MemSource::new(es), SnapshotFile::default(), &[PathBuf::from(crate::repo::SRC_ROOT)]).ok()?.id);
+    }
+    // every snapshot but the last is forgotten; no prune
+    let repo = open_nc(&h).ok()?;
+    repo.delete_snapshots(&ids[..ids.len() - 1]).ok()?;
+    let n = inner_only_packs(&h)?;
+    stats.hit(format!("repo.inner-chunk-only-packs.{}", Stats::bucket(n)));
+    if n == 0 {
+        return None;
+    }
+    stats.hit("repo.inner-chunks-in-older-packs");
+    let expected = all_digests(&h).ok()?;
+    Some(Built { h, expected })
+}
+
+/// two distinct short byte strings whose SHA-256 digests (= their blob ids when stored as one-chunk files) share the first
+/// four bytes; found by brute force over `<salt>-<i>` (birthday bound: 50 % after ≈ 77 000 strings; ≈ 0.1–0.3 s)
+pub fn id_prefix_pair(rng: &mut Rng) -> Option<(Vec<u8>, Vec<u8>)> {
+    let salt = rng.next();
+    let mut seen: std::collections::HashMap<[u8; 4], u32> = std::collections::HashMap::new();
+    let cand = |i: u32| format!("c05-{salt:016x}-{i}\n").into_bytes();
+    for i in 0..2_000_000u32 {
+        let d = sha(&cand(i));
+        if let Some(j) = seen.insert([d[0], d[1], d[2], d[3]], i) {
+            return Some((cand(j), cand(i)));
+        }
+    }
+    None
+}
+
+/// Two data blobs whose ids share their first four bytes (`Id::as_u32`, the key some id-keyed shortcuts use), each stored as a
+/// one-chunk file in a data pack of its own: `first` is backed up alone, then `first` and `second` together (the second
+/// backup stores only the new blob); optionally a third file / the names exchanged, so that either blob of the pair can be
+/// the one a tree walk meets first.
+pub fn build_prefix_pair(rng: &mut Rng, stats: &mut Stats) -> Option<Built> {
+    let (cfg, v1) = meta_cfg(rng, stats);
+    let h = init_repo(&cfg, v1)?;
+    let (a, b) = id_prefix_pair(rng)?;
+    debug_assert!(a != b && sha(&a)[..4] == sha(&b)[..4]);
+    let (na, nb): (&[u8], &[u8]) = if rng.chance(3, 4) { (b"a.bin", b"b.bin") } else { (b"y.bin", b"b.bin") };
+    let mut es = vec![SrcEntry::file(&[na], &a)];
+    if rng.chance(1, 2) {
+        es.push(SrcEntry::file(&[b"other"], &rng.bytes(300)));
+    }
+    for k in 0..2 {
+        if k == 1 {
+            es.push(SrcEntry::file(&[nb], &b));
+        }
+        let repo = open_nc(&h).ok()?.to_indexed_ids().ok()?;
+        _ = repo.archive(&BackupOptions::default(), &MemSource::new(es.clone()), SnapshotFile::default(), &[PathBuf::from(crate::repo::SRC_ROOT)]).ok()?;
+    }
+    stats.hit("repo.blob-ids-sharing-4-byte-prefix");
+    let expected = all_digests(&h).ok()?;
+    Some(Built { h, expected })
+}
+
 fn index_packs_marked(key: &MasterKey, store: &Store) -> usize {
     let mut n = 0;
     for (_, b) in files_of(store, FileType::Index) {
@@ -1355,32 +1513,36 @@ pub fn line(label: &str, key: &MasterKey, store: &Store, expected: &BTreeMap<Str
 }
 
 pub fn generate(thorough: bool, rng: &mut Rng, ops: &mut Vec<String>, stats: &mut Stats) {
-    let n_repos = if thorough { 60 } else { 11 };
+    let n_repos = if thorough { 70 } else { 13 };
     let per_repo_cap = if thorough { 300 } else { 110 };
     let mut late: Vec<String> = Vec::new();
     for r in 0..n_repos {
-        // repository kinds by position (quick = the first 11 of a round of 12, thorough = 5 rounds): the first repository of every run is the
+        // repository kinds by position (quick = the first 13 of a round of 14, thorough = 5 rounds): the first repository of every run is the
         // stdin-style pair (packs holding only a root tree); the kinds that need a history come early
-        let built = match r % 12 {
+        let built = match r % 14 {
             0 if r == 0 => build_stdin_pair(stats, rng.chance(1, 2)),
             // backup, backup, forget the first, no prune: packs holding used next to unused blobs
             1 => build_partly_used(rng, stats),
             // snapshots with delete marks (delete-after passed / in the future, delete-never), each holding data of its own
             2 => build_delete_marks(rng, stats),
+            // a file changed at both ends between backups, first snapshot forgotten: packs needed through INNER chunks only
+            3 => build_inner_chunks(rng, stats),
+            // two data blobs whose ids share their first four bytes, in packs of their own
+            4 => build_prefix_pair(rng, stats),
             // a tree reached only through the subtree of a file node
-            3 if r == 3 => build_file_subtree(stats, rng.chance(1, 2)),
+            5 if r == 5 => build_file_subtree(stats, rng.chance(1, 2)),
             // a hardlinked file overwritten in place between backups (same inode and link count, new content)
-            4 => build_hardlink_history(rng, stats),
+            6 => build_hardlink_history(rng, stats),
             // real stdin snapshots: nodes with recorded size 0 and real content
-            5 => build_stdin_real(rng, stats),
+            7 => build_stdin_real(rng, stats),
             // forget/prune history with packs marked for deletion, the forgotten data uploaded again
-            6 | 9 => build_pruned(rng, stats),
+            8 | 11 => build_pruned(rng, stats),
             // files whose recorded size is not the length of their content
-            7 => build_size_mismatch(rng, stats),
+            9 => build_size_mismatch(rng, stats),
             // a chain of directory trees of identical layout shared by two snapshots (parent/child tree packs of equal size)
-            10 => build_tree_chain(rng, stats),
-            // 1–3 backups of small trees or stdin-style single files (repository 8: stdin-style only)
-            _ => build_repo(rng, stats, r == 8),
+            12 => build_tree_chain(rng, stats),
+            // 1–3 backups of small trees or stdin-style single files (repository 10: stdin-style only)
+            _ => build_repo(rng, stats, r == 10),
         };
         let Some(b) = built else {
             stats.hit("repo.build-failed");
